@@ -188,14 +188,18 @@ fn run_case(case: &Value) -> Value {
                 let sock = UdpSocket::bind((wild, PORT)).await?;
                 let conns: Rc<RefCell<std::collections::BTreeMap<u64, Rc<TcpStream>>>> =
                     Rc::new(RefCell::new(std::collections::BTreeMap::new()));
+                // reader tasks of accepted streams: (peer host, task)
+                let readers: Rc<RefCell<Vec<(i64, tokio::task::JoinHandle<()>)>>> = Rc::new(RefCell::new(Vec::new()));
                 if use_tcp {
                     let lis = TcpListener::bind((wild, TCP_PORT)).await?;
                     let (tcp_recv, step_no, ips) = (tcp_recv.clone(), step_no.clone(), ips.clone());
+                    let readers = readers.clone();
                     tokio::task::spawn_local(async move {
                         loop {
                             let Ok((mut s, peer)) = lis.accept().await else { break };
                             let (tcp_recv, step_no, ips) = (tcp_recv.clone(), step_no.clone(), ips.clone());
-                            tokio::task::spawn_local(async move {
+                            let peer_host = host_index(peer.ip(), &ips);
+                            let jh = tokio::task::spawn_local(async move {
                                 let mut frame = [0u8; 8];
                                 loop {
                                     match s.read_exact(&mut frame).await {
@@ -211,6 +215,7 @@ fn run_case(case: &Value) -> Value {
                                     }
                                 }
                             });
+                            readers.borrow_mut().push((peer_host, jh));
                         }
                     });
                 }
@@ -255,6 +260,21 @@ fn run_case(case: &Value) -> Value {
                                         Err(e) => tcp_ev.borrow_mut().push(json!([st, h, "connect_err", cid, vharness::err_kind(&e)])),
                                     }
                                 });
+                            }
+                            "tcp_drop_readers" => {
+                                // the accepting side drops its end of every stream from that peer host
+                                let peer = cmd[1].as_i64().unwrap();
+                                let mut n = 0;
+                                readers.borrow_mut().retain(|(p, jh)| {
+                                    if *p == peer {
+                                        jh.abort();
+                                        n += 1;
+                                        false
+                                    } else {
+                                        true
+                                    }
+                                });
+                                tcp_ev.borrow_mut().push(json!([*step_no.borrow(), h, "dropped_readers", peer, format!("{n}")]));
                             }
                             "tcp_shutdown" => {
                                 // drop the only handle: the stream (both halves) is dropped, which sends FIN
